@@ -156,11 +156,12 @@ def proj_steps(log, goals, ident) -> list[dict]:
     return [{"g": idx[k], "sol": proj_sol(v, goals, ident)} for k, v in log]
 
 
-def event(mode, op, post, *, sols=(), gs=(), n=0, rb=False, ntf=(), exc="", steps=()) -> dict:
+def event(mode, op, post, *, sols=(), gs=(), n=0, rb=False, ntf=(), exc="", steps=(), cvs=()) -> dict:
     """One public call: arguments, return value, callbacks fired, archive projected afterwards
     (the view before the call is the `post` of the previous event)."""
     return {"mode": mode, "op": op, "sols": list(sols), "gs": list(gs), "n": n,
-            "post": post, "rb": bool(rb), "ntf": list(ntf), "exc": exc, "steps": list(steps)}
+            "post": post, "rb": bool(rb), "ntf": list(ntf), "exc": exc, "steps": list(steps),
+            "cvs": list(cvs)}
 
 
 def replay(beh: dict) -> dict:
@@ -195,7 +196,7 @@ def replay(beh: dict) -> dict:
         a = arch.MIOPopulation(init["cap"])
         proj = lambda: proj_single_pop(a, goals, sol_id, _hrank_p2)  # noqa: E731
 
-    events = [event(mode, "init", proj())]
+    events = [event(mode, "init", proj(), n=0 if mode == "cov" else init["cap"])]
     for act in hist:
         op = act["op"]
         offered = act["offered"]
@@ -250,6 +251,7 @@ class Recorder:
         self.events: list[dict] = []
         self.max_events = max_events
         self.calls_seen = 0
+        self.steps_seen = 0
         self._keep: list = []          # keeps observed chromosomes alive (stable identities)
         self._ids: dict[int, int] = {}
         self.notified: list[int] = []
@@ -258,6 +260,9 @@ class Recorder:
         self.archive.add_on_target_covered(lambda t: self.notified.append(self.idx[t]))
         self._depth = 0
         self._last: dict | None = None
+        self._last_cvs: list | None = None
+        self._codes: dict[tuple, int] = {}
+        self._ncache: dict[int, tuple] = {}
         self._log: list = []
         if not self.is_mio:
             self.archive._covered = RecordingDict(self.archive._covered)
@@ -286,6 +291,29 @@ class Recorder:
             return proj_mio(self.archive, self.goals, self.ident, self.hrank)
         return proj_cov(self.archive, self.goals, self.ident)
 
+    # who is archived with which statements (content identity = source text of the statements)
+    def _cv(self, chromosome) -> int:
+        key = []
+        for st in chromosome.test_case.statements():
+            ent = self._ncache.get(id(st.node))
+            if ent is None or ent[0] is not st.node:
+                ent = (st.node, cst.Module(body=[st.node]).code)
+                self._ncache[id(st.node)] = ent
+            key.append(ent[1])
+        return self._codes.setdefault(tuple(key), len(self._codes) + 1)
+
+    def cvs(self) -> list:
+        def one(ch):
+            return {"id": self.ident(ch), "cv": self._cv(ch), "size": ch.size()}
+        if self.is_mio:
+            return [[one(p.test_case_chromosome) for p in self.archive._archive[g]._solutions]
+                    for _, g in self.goals]
+        cov = self.archive._covered
+        return [[one(cov[g])] if g in cov else [] for _, g in self.goals]
+
+    def changed(self, view: dict, cvs: list) -> bool:
+        return view != self._last or cvs != self._last_cvs
+
     def offered(self, solutions) -> list[dict]:
         out = []
         for s in solutions:
@@ -310,13 +338,17 @@ class Recorder:
         return out
 
     def _emit(self, op, post, **kw) -> None:
+        kw.setdefault("cvs", self.cvs())
         self.events.append(event(self.mode, op, post, **kw))
         self._last = post
+        self._last_cvs = kw["cvs"]
 
     def install(self) -> None:
         a = self.archive
         rec = self
-        self._emit("init", self.project())
+        # the capacity the algorithm announced: MIO's parameter n (0: not a MIO archive)
+        n0 = int(getattr(getattr(self.alg, "_parameters", None), "n", 0)) if self.is_mio else 0
+        self._emit("init", self.project(), n=n0)
 
         def wrap(name, op, args_of):
             orig = getattr(a, name)
@@ -336,8 +368,9 @@ class Recorder:
                         args, kwargs = (sols,), {}
                         extra["sols"] = rec.offered(sols)
                     pre = rec.project()
-                    if pre != rec._last:
-                        rec._emit("observe", pre)
+                    pre_cvs = rec.cvs()
+                    if rec.changed(pre, pre_cvs):
+                        rec._emit("observe", pre, cvs=pre_cvs)
                     del rec.notified[:]
                     del rec._log[:]
                     result = orig(*args, **kwargs)
@@ -362,6 +395,23 @@ class Recorder:
                  lambda new_goals: {"gs": [rec.idx[g] for g in new_goals]})
             wrap("reset", "reset", lambda: {})
 
+    def install_step_hooks(self) -> None:
+        """After every step of the search loop (evolve, local_search, MIO's _update_parameters) the
+        archive is projected again and every archived test is re-executed ("recheck")."""
+        alg, rec = self.alg, self
+        for name in ("evolve", "local_search", "_update_parameters"):
+            orig = getattr(alg, name, None)
+            if orig is None:
+                continue
+
+            def hooked(*args, _orig=orig, **kwargs):
+                result = _orig(*args, **kwargs)
+                rec.steps_seen += 1
+                rec.recheck()
+                return result
+
+            setattr(alg, name, hooked)
+
     @staticmethod
     def _mio_ids(sols: list[dict], pre: dict, post: dict) -> None:
         """MIOArchive stores one clone per offered solution: the offered solution gets the
@@ -378,9 +428,12 @@ class Recorder:
     def recheck(self) -> None:
         """Re-execute every archived test (a clone, marked as changed, result dropped) and
         record the view with the re-computed `covers`."""
+        if len(self.events) >= 4 * self.max_events:
+            return
         pre = self.project()
-        if pre != self._last:
-            self._emit("observe", pre)
+        pre_cvs = self.cvs()
+        if self.changed(pre, pre_cvs):
+            self._emit("observe", pre, cvs=pre_cvs)
         post = self.project()
         if self.is_mio:
             for (_, g), pop in zip(self.goals, post["pops"]):
@@ -391,7 +444,7 @@ class Recorder:
             for (_, g), entry in zip(self.goals, post["cov"]):
                 if entry["id"]:
                     entry["covers"] = self._reexec_covers(self.archive._covered[g])
-        self.events.append(event(self.mode, "recheck", post))
+        self.events.append(event(self.mode, "recheck", post, cvs=pre_cvs))
 
     def _reexec_covers(self, chromosome) -> list[int]:
         c = chromosome.clone()
@@ -442,6 +495,19 @@ def bucket(x: int) -> str:
 '''
 
 
+# integer equalities that local search can reach from a nearby value, in sequence
+SUT_LS_SOURCE = '''\
+def grade(x: int, y: int) -> int:
+    if x == 4321:
+        return 1
+    if y == 55:
+        return 2
+    if x == y:
+        return 3
+    return 0
+'''
+
+
 def run_search(job: dict) -> dict:
     """P1: run a real, tiny search in this process and record its archive call by call.
 
@@ -460,7 +526,7 @@ def run_search(job: dict) -> dict:
 
     d = Path(job["dir"])
     d.mkdir(parents=True, exist_ok=True)
-    (d / f"{job['module']}.py").write_text(SUT_SOURCE)
+    (d / f"{job['module']}.py").write_text(SUT_LS_SOURCE if job.get("sut") == "ls" else SUT_SOURCE)
     config.configuration = config.Configuration(
         algorithm=config.Algorithm[job["algorithm"]],
         project_path=str(d),
@@ -473,6 +539,8 @@ def run_search(job: dict) -> dict:
     config.configuration.seeding.seed = job["seed"]
     for k, v in job.get("search", {}).items():
         setattr(config.configuration.search_algorithm, k, v)
+    for k, v in job.get("local_search", {}).items():
+        setattr(config.configuration.local_search, k, v)
     randomness.RNG.seed(job["seed"])
     sys.path.insert(0, str(d))
     sp = SubjectProperties()
@@ -485,9 +553,12 @@ def run_search(job: dict) -> dict:
         alg = gaf.TestSuiteGenerationAlgorithmFactory(executor, cluster).get_search_algorithm()
         rec = Recorder(alg, job.get("max_events", 300))
         rec.install()
+        if job.get("every_step"):
+            rec.install_step_hooks()
         alg.generate_tests()
         rec.recheck()
     tr = rec.trace()
     tr["calls_seen"] = rec.calls_seen
+    tr["steps_seen"] = rec.steps_seen
     tr["goals"] = [str(g) for g in rec.fns]
     return tr
